@@ -218,6 +218,10 @@ def conn_script(rng, c, attach, big=False, overflow=None):
         streams[from_client] = [mk(from_client, ACK | (PSH if rng.random() < 0.5 else 0), isn + 1 + segs[i][0],
                                    (isn_s if from_client else isn_c) + 1, segs[i][1]) for i in order], isn + 1 + n
     cq, sq = list(streams[True][0]), list(streams[False][0])
+    if mode == 'attach' and cq and rng.random() < 0.3:
+        cq[0] = dict(cq[0], flags=cq[0]['flags'] | rng.choice([PSH, PSH | FIN]))      # the first segment seen may already close its direction
+        if cq[0]['flags'] & FIN:
+            cq[:] = cq[:1]
     if mode == 'attach' and not cq and not sq:
         cq = [mk(True, ACK, isn_c + 1, isn_s + 1, b'x')]
         streams[True] = (cq, isn_c + 2)
